@@ -763,8 +763,47 @@ func (e *Exec) probeKeys() []string {
 
 // fillBatch issues the operations of bs against the moss batch.
 func (e *Exec) fillBatch(b moss.Batch, bs *BatchSpec, top bool) {
+	type late struct {
+		op   string
+		k, v []byte
+	}
+	var lates []late
+	var carve []byte
+	if bs.AllocLate == 2 {
+		tot := 0
+		for _, kv := range bs.Ops {
+			if kv.Alloc {
+				tot += len(kv.K) + len(kv.V)
+			}
+		}
+		if tot > 0 {
+			buf, aerr := b.Alloc(tot)
+			if aerr != nil {
+				e.fail("batch-error", "Alloc(%d): %v", tot, aerr)
+			}
+			carve = buf
+		}
+	}
 	for _, kv := range bs.Ops {
 		var err error
+		if kv.Alloc && bs.AllocLate != 0 {
+			// the bytes are allocated (or carved from the one allocation) and
+			// filled now, the operation is registered after the loop
+			n := len(kv.K) + len(kv.V)
+			var buf []byte
+			if bs.AllocLate == 2 {
+				buf, carve = carve[:n], carve[n:] // no capacity limit: moss locates the key through cap()
+			} else {
+				var aerr error
+				if buf, aerr = b.Alloc(n); aerr != nil {
+					e.fail("batch-error", "Alloc(%d): %v", n, aerr)
+				}
+			}
+			copy(buf, kv.K)
+			copy(buf[len(kv.K):], kv.V)
+			lates = append(lates, late{kv.Op, buf[:len(kv.K)], buf[len(kv.K):]})
+			continue
+		}
 		if kv.Alloc {
 			buf, aerr := b.Alloc(len(kv.K) + len(kv.V))
 			if aerr != nil {
@@ -794,6 +833,21 @@ func (e *Exec) fillBatch(b moss.Batch, bs *BatchSpec, top bool) {
 		}
 		if err != nil {
 			e.fail("batch-error", "batch %s %q: %v", kv.Op, string(kv.K), err)
+		}
+	}
+	for i := len(lates) - 1; i >= 0; i-- {
+		var err error
+		l := lates[i]
+		switch l.op {
+		case "set":
+			err = b.AllocSet(l.k, l.v)
+		case "del":
+			err = b.AllocDel(l.k)
+		case "merge":
+			err = b.AllocMerge(l.k, l.v)
+		}
+		if err != nil {
+			e.fail("batch-error", "batch Alloc%s %q (registered late): %v", l.op, string(l.k), err)
 		}
 	}
 	for _, name := range bs.DelKids {
